@@ -421,6 +421,11 @@ func c11Worker(args []string) {
 			for f := 0; f < 40; f++ {
 				fields = append(fields, reflect.StructField{Name: fmt.Sprintf("F%d", f), Type: reflect.TypeOf(0)})
 			}
+			// ... and fields of kinds the engine cannot convert, of types never seen before either
+			// (an array type of a length of its own, a pointer to it, small integers, raw bytes)
+			rawT := reflect.ArrayOf(1+tn+int(seed%7)*1000, reflect.TypeOf(uint8(0)))
+			fields = append(fields, reflect.StructField{Name: "Raw", Type: rawT}, reflect.StructField{Name: "RawPtr", Type: reflect.PointerTo(rawT)},
+				reflect.StructField{Name: "Small", Type: reflect.TypeOf(uint16(0))}, reflect.StructField{Name: "Blob", Type: reflect.TypeOf([]byte{})}, reflect.StructField{Name: "Pair", Type: reflect.ArrayOf(2, reflect.SliceOf(rawT))})
 			typ := reflect.StructOf(fields)
 			objs := make([]interface{}, workers)
 			for w := range objs {
